@@ -358,3 +358,68 @@ def check_text_decoding(rep, prog, rule, module_prefix, what):
                   node=cs.node, file=cs.module.rel)
     rep.floor("text-mode open() calls checked for their decoding (%s)" % module_prefix, n, 1)
     return n
+
+
+def _mv_valued(expr, fnode, cls_node, module, depth=0):
+    """is this expression (in function fnode of class cls_node) certainly a memoryview object?"""
+    if depth > 4 or expr is None:
+        return False
+    if isinstance(expr, ast.Call):
+        d = dotted(expr.func)
+        if d in ("memoryview", "builtins.memoryview"):
+            return True
+        if isinstance(expr.func, ast.Attribute) and expr.func.attr in ("cast", "toreadonly") and _mv_valued(expr.func.value, fnode, cls_node, module, depth + 1):
+            return True
+        # a helper of the same module / class all of whose returns are memoryviews
+        name = expr.func.id if isinstance(expr.func, ast.Name) else (expr.func.attr if isinstance(expr.func, ast.Attribute) and
+                                                                       isinstance(expr.func.value, ast.Name) and expr.func.value.id in ("self", "cls") else None)
+        if name:
+            for f in module.all_functions():
+                if f.name == name:
+                    rets = [r for r in ast.walk(f.node) if isinstance(r, ast.Return)]
+                    if rets and all(_mv_valued(r.value, f.node, getattr(f.cls, "node", None) if f.cls else None, module, depth + 1) for r in rets):
+                        return True
+        return False
+    if isinstance(expr, ast.Subscript) and isinstance(expr.slice, ast.Slice):
+        return _mv_valued(expr.value, fnode, cls_node, module, depth + 1)        # a slice of a memoryview is one
+    if isinstance(expr, ast.Name):
+        asg = [n for n in ast.walk(fnode) if isinstance(n, (ast.Assign, ast.AnnAssign, ast.NamedExpr)) and
+               any(isinstance(t, ast.Name) and t.id == expr.id for t in (n.targets if isinstance(n, ast.Assign) else [n.target]))]
+        asg = [n for n in asg if getattr(n, "lineno", 0) <= getattr(expr, "lineno", 10 ** 9)]
+        return bool(asg) and all(_mv_valued(n.value, fnode, cls_node, module, depth + 1) for n in asg)
+    if isinstance(expr, ast.Attribute) and isinstance(expr.value, ast.Name) and expr.value.id == "self" and cls_node is not None:
+        asg = [n for n in ast.walk(cls_node) if isinstance(n, ast.Assign) and
+               any(isinstance(t, ast.Attribute) and isinstance(t.value, ast.Name) and t.value.id == "self" and t.attr == expr.attr for t in n.targets)]
+        if not asg:
+            return False
+        out = True
+        for n in asg:
+            fn_ = enclosing_function(n)
+            out = out and fn_ is not None and _mv_valued(n.value, fn_, cls_node, module, depth + 1)
+        return out
+    if isinstance(expr, ast.IfExp):
+        return _mv_valued(expr.body, fnode, cls_node, module, depth + 1) and _mv_valued(expr.orelse, fnode, cls_node, module, depth + 1)
+    return False
+
+
+def check_payload_is_memoryview(rep, prog, rule, method="parseUDToJson", argpos=2):
+    """parser plug-ins are written against a memoryview payload (they call .tobytes() / .cast() on it): what the core hands
+    them as payload is the result of memoryview(...) (directly, through a local name, an attribute set from one, or a slice)"""
+    n = 0
+    for cs in call_sites(prog):
+        f = cs.node.func
+        if not (isinstance(f, ast.Attribute) and f.attr == method) or not cs.module.name.startswith("pel."):
+            continue
+        args = list(cs.node.args)
+        arg = args[argpos] if len(args) > argpos else next((k.value for k in cs.node.keywords if k.arg == "data"), None)
+        if arg is None or cs.func is None:
+            continue
+        n += 1
+        cls_node = getattr(cs.func, "_parent", None)
+        cls_node = cls_node if isinstance(cls_node, ast.ClassDef) else None
+        ok = _mv_valued(arg, cs.func, cls_node, cs.module)
+        rep.check(ok, rule, "%s:%s the payload handed to %s is a memoryview" % (cs.where, cs.node.lineno, method), cs.where, cs.node,
+                  "the payload argument of %s (%s) is not the result of memoryview(...): a section read from a file is a bytes object, and "
+                  "parser modules that call .tobytes() / .cast() on their payload fail on it" % (method, ast.unparse(arg)[:60]),
+                  node=cs.node, file=cs.module.rel)
+    rep.floor("%s call sites checked for the payload type" % method, n, 1)
